@@ -106,8 +106,15 @@ func (action *ModifyRequestAction) ReqPrioritize(
 		mergedHeaders := utils.MergeHeaders(
 			action.HeadersToSet, other.(*ModifyHeadersAction).HeadersToSet)
 
-		action.HeadersToSet = mergedHeaders
-		prioritizedAction = action
+		// a new action: the receiver is an action a processor handed out and must
+		// stay as it is (the same action may be combined again)
+		prioritizedAction = &ModifyRequestAction{
+			HeadersToSet: mergedHeaders,
+			Host:         action.Host,
+			Path:         action.Path,
+			QueryParams:  action.QueryParams,
+			Body:         action.Body,
+		}
 
 	case sharedActions.ReqModifiedRequest:
 		mergedHeaders := utils.MergeHeaders(
